@@ -2,8 +2,6 @@ package rules
 
 import (
 	"fmt"
-	"go/token"
-	"go/types"
 
 	"golang.org/x/tools/go/ssa"
 
@@ -18,47 +16,22 @@ func c15Extra(c *eng.Ctx) {
 	c03RemovalEveryPath(c, "R5")
 
 	c.Rule("R6", "other clusters are unaffected by a deletion: every Manager.Delete/DeleteWithStop(key) in the controller is control-dependent on a comparison of the NAME (ClusterInfo.Cluster, a string) of the entry found under that same key with the acting cluster's name — not on an identity comparison with whatever entry the acting name resolves to, which is another cluster's when the name is one of its aliases", 2)
+	// the owner-guard template of C10.R2 (c10CheckOwnerGuard): decided in every calling context,
+	// through predicate helpers and deletion helpers
+	sp := c10OwnerSpec{
+		isLookup:  func(ci ssa.CallInstruction) bool { return c10IsMgr(ci, "Get") },
+		ownerBase: func(v ssa.Value) ssa.Value { return eng.FieldBase(v, c10TCluster, "Cluster") },
+	}
 	n := 0
 	for _, fn := range c.W.FuncsOf(pkgCtrl) {
 		for _, ci := range eng.Calls(fn) {
-			if !eng.MethodNameIs(ci, "DeleteWithStop") && !eng.MethodNameIs(ci, "Delete") {
-				continue
-			}
-			o := eng.CalleeObj(ci)
-			if o == nil || o.Pkg() == nil || o.Pkg().Path() != pkgClusters {
-				continue
-			}
-			a := eng.Args(ci)
-			if len(a) != 1 {
-				continue
-			}
-			if b, isB := a[0].Type().Underlying().(*types.Basic); !isB || b.Kind() != types.String {
+			if !c10IsMgr(ci, "Delete", "DeleteWithStop") || len(eng.Args(ci)) != 1 {
 				continue
 			}
 			n++
-			key := a[0]
-			isEntryName := func(v ssa.Value) bool {
-				// load of .Cluster of a value returned by Get(key) with the same key
-				if !eng.FieldLoadOf(v, tClusterInfo, "Cluster") {
-					return false
-				}
-				return c.Slicer().DerivesFrom(v, func(x ssa.Value) bool {
-					cc, i := eng.CallResultOf(x)
-					if cc == nil || i != 0 || !eng.MethodNameIs(cc, "Get") {
-						return false
-					}
-					ga := eng.Args(cc)
-					return len(ga) == 1 && (ga[0] == key || sameLoad(ga[0], key))
-				})
-			}
-			ok := eng.GuardedBy(ci.(ssa.Instruction), func(r eng.Rel) bool {
-				if r.Op != token.EQL {
-					return false
-				}
-				return isEntryName(r.X) || isEntryName(r.Y)
-			})
+			ok, why, _ := c10CheckOwnerGuard(ci, eng.Args(ci)[0], sp, c.Slicer())
 			c.Check("R6", fn, fmt.Sprintf("delete#%d guarded by the name of the entry under the same key", n), ci.Pos(), ok,
-				"the entry removed (and stopped) under this key is not checked to belong, by name, to the cluster being deleted: deleting an object whose name is an alias of another cluster unregisters and stops that cluster")
+				"the entry removed (and stopped) under this key is not checked to belong, by name, to the cluster being deleted: deleting an object whose name is an alias of another cluster unregisters and stops that cluster"+c02Found(why))
 		}
 	}
 	if n == 0 {
